@@ -335,7 +335,8 @@ static void do_action(const struct action *a, struct inst *self, int group)
 	if (!ok) vf_fail("model:C11:register-failed", "%s returned FALSE", op_name[a->op]);
 	if ((before ^ m_union()) & VBI_EVENT_TTX_PAGE) ttx_flips++;
 	/* the window as it stands after the last action taken outside a TTX_PAGE callback (see tx_page_in_frame) */
-	if (!(self && cur.open && cur.type == VBI_EVENT_TTX_PAGE)) window_outside_ttx_cb = !!(m_union() & VBI_EVENT_TTX_PAGE);
+	/* (deferred triggers fire at the end of vbi_decode(), behind all lines of the frame: their callbacks do not count either) */
+	if (!(self && cur.open && (cur.type == VBI_EVENT_TTX_PAGE || cur.type == VBI_EVENT_TRIGGER))) window_outside_ttx_cb = !!(m_union() & VBI_EVENT_TTX_PAGE);
 	if (rel != R_MAIN)
 		sig_seen[a->op][rel][pos][group > MAXGROUPS ? MAXGROUPS : group][cur.source] = 1;
 	vf_phase(op_real ? "vbi_decode" : "vbi_send_event");
@@ -471,6 +472,53 @@ static void tx_page_in_frame(struct vf_rng *r, int pgno, int rows)
 	if (flips0 != ttx_flips) vf_count("pages_in_frame_window_changed_by_callback", 1);
 }
 
+/* A page during whose transmission the window closes and opens again (the main program changes the registrations
+ * between two of its packets): part of it was transmitted while nobody requested Teletext pages, so it is not
+ * acquired - "exactly while at least one registered handler requests" - whatever other handlers are registered. */
+static void tx_page_interrupted(struct vf_rng *r, int pgno)
+{
+	uint8_t p[42];
+	struct action a;
+	int i, k, was_on = !!(m_union() & VBI_EVENT_TTX_PAGE);
+	void *cn0 = vbi->cn;
+	if (have_sentinel) { tx_page(pgno, 2); return; }
+	hist_add("| page-interrupted(%x,%s) ", pgno, was_on ? "on" : "off");
+	tx_ttx_header(p, pgno, 0, 0, 0, "C11 HEADER                      ");
+	decode_line(VBI_SLICED_TELETEXT_B, 7, p, 42);
+	tx_ttx_row(p, (pgno >> 8) & 7, 1, "FIRST HALF");
+	decode_line(VBI_SLICED_TELETEXT_B, 8, p, 42);
+	/* close the window: every instance loses the TTX_PAGE bit */
+	for (i = 0; i < n_inst; i++) {
+		if (!insts[i].alive || !(insts[i].mask & VBI_EVENT_TTX_PAGE)) continue;
+		a.f = insts[i].f; a.u = insts[i].u; a.mask = insts[i].mask & ~VBI_EVENT_TTX_PAGE;
+		a.op = a.mask ? OP_REG : OP_UNREG;
+		do_action(&a, NULL, 0);
+	}
+	for (k = (int)vf_below(r, 3); k > 0; k--) {
+		tx_ttx_row(p, (pgno >> 8) & 7, 2, "WHILE NOBODY LISTENS");
+		decode_line(VBI_SLICED_TELETEXT_B, 9, p, 42);
+	}
+	/* and open it again */
+	a.op = OP_REG; a.f = (int)vf_below(r, NF - 1); a.u = (int)vf_below(r, NU); a.mask = VBI_EVENT_TTX_PAGE | (vf_chance(r, 1, 2) ? VBI_EVENT_NETWORK : 0);
+	{ struct inst *x = m_find(a.f, a.u); if (x) a.mask |= x->mask; }
+	do_action(&a, NULL, 0);
+	for (k = 3; k <= 4; k++) {
+		tx_ttx_row(p, (pgno >> 8) & 7, k, "SECOND HALF");
+		decode_line(VBI_SLICED_TELETEXT_B, 10, p, 42);
+	}
+	tx_ttx_header(p, (pgno & 0x700) | 0xFF, 0x3F7F, 0, 0, "C11 HEADER                      ");
+	decode_line(VBI_SLICED_TELETEXT_B, 11, p, 42);
+	if (n_pages < 64) {
+		pages[n_pages].pgno = pgno;
+		pages[n_pages].enabled = 0;           /* not wholly inside one window: must not be acquired */
+		pages[n_pages].valid = 1;
+		if (cn0 != (void *)vbi->cn) { for (i = 0; i <= n_pages; i++) pages[i].valid = 0; vf_count("guard_cache_network_replaced", 1); }
+		n_pages++;
+	}
+	vf_count("pages_transmitted", 1);
+	vf_count("pages_interrupted_by_a_closed_window", 1);
+}
+
 static void check_pages(void)
 {
 	int i;
@@ -506,8 +554,44 @@ static void tx_cc(int line, int a, int b)
 	decode_line(VBI_SLICED_CAPTION_525, line, d, 2);
 }
 
+/* EACEM triggers on page 1E7 with a countdown of a few frames: they are queued and fired by vbi_decode() some
+ * frames later (vbi_deferred_trigger), one VBI_EVENT_TRIGGER each, while the list of pending triggers is being
+ * walked - and what a handler does to the registrations then (removing the last TRIGGER handler and registering
+ * one again flushes that list) must not pull the list from under the walk. */
+static unsigned tx_trigger_checksum(const char *s, int n)
+{
+	unsigned long sum = 0;
+	int i;
+	for (i = 0; i + 1 < n; i += 2) sum += ((unsigned long)(unsigned char)s[i] << 8) + (unsigned char)s[i + 1];
+	if (i < n) sum += (unsigned long)(unsigned char)s[i] << 8;
+	while (sum >> 16) sum = (sum & 0xFFFF) + (sum >> 16);
+	return (unsigned)(~sum) & 0xFFFF;
+}
+
+static void tx_trigger_page(struct vf_rng *r)
+{
+	uint8_t p[42];
+	char body[48], row[64];
+	int k, n = vf_range(r, 1, 3);
+	static int serial;
+	hist_add("| trigger*%d ", n);
+	tx_ttx_header(p, 0x1E7, 0, 1, 0, "C11 TRIGGER PAGE                ");
+	decode_line(VBI_SLICED_TELETEXT_B, 7, p, 42);
+	for (k = 1; k <= n; k++) {
+		snprintf(body, sizeof body, "<http://c11.test/%d>(c:0F%02d)", ++serial % 1000, vf_range(r, 1, 9));
+		snprintf(row, sizeof row, "%s(%04X)", body, tx_trigger_checksum(body, (int)strlen(body)));
+		tx_ttx_row(p, 1, k, row);
+		decode_line(VBI_SLICED_TELETEXT_B, 8, p, 42);
+	}
+	tx_ttx_header(p, 0x100, 0, 0, 0, "C11 HEADER                      ");
+	decode_line(VBI_SLICED_TELETEXT_B, 9, p, 42);
+	vf_count("real_trigger_pages", 1);
+	vf_count("real_triggers_sent", n);
+}
+
 static void real_input(struct vf_rng *r, int *next_page)
 {
+	if (vf_chance(r, 1, 8)) { tx_trigger_page(r); return; }
 	switch (vf_below(r, 8)) {
 	case 0: case 1: case 2: {
 		int pg = *next_page;
@@ -515,7 +599,12 @@ static void real_input(struct vf_rng *r, int *next_page)
 		*next_page = pg + 1;
 		if ((*next_page & 15) > 9) *next_page += 6;
 		if ((*next_page & 0xF0) > 0x90) *next_page += 0x60;
-		if (pg <= 0x799) { if (vf_chance(r, 1, 3)) tx_page_in_frame(r, pg, vf_range(r, 1, 3)); else tx_page(pg, vf_range(r, 1, 3)); }
+		if (pg <= 0x799) {
+			unsigned w = vf_below(r, 12);
+			if (w < 4) tx_page_in_frame(r, pg, vf_range(r, 1, 3));
+			else if (w < 6) tx_page_interrupted(r, pg);
+			else tx_page(pg, vf_range(r, 1, 3));
+		}
 		break;
 	}
 	case 3: {       /* VPS, ZDF, received twice -> NETWORK (first time), NETWORK_ID, PROG_ID */
@@ -692,6 +781,15 @@ static int run_random(struct vf_rng *r)
 			sc->nact[g] = vf_chance(r, 1, 2) ? 1 : vf_range(r, 1, MAXBURST);
 			for (k = 0; k < sc->nact[g]; k++)
 				rand_action(r, &sc->act[g][k], slots, nslots, focus, nfocus);
+			if (MAXBURST >= 2 && vf_chance(r, 1, 6)) {
+				/* bounce: the handler removes itself and registers again inside its callback; when it was the
+				   last one for an event type that type is deactivated and activated again (state the
+				   decoder keeps for it - pending triggers, caption and Teletext assembly - is reset) */
+				int m = focus[vf_below(r, (unsigned)nfocus)] | (vf_chance(r, 1, 3) ? VBI_EVENT_TRIGGER : 0);
+				sc->nact[g] = 2;
+				sc->act[g][0].op = vf_chance(r, 3, 4) ? OP_UNREG : OP_REMOVE; sc->act[g][0].f = slots[i][0]; sc->act[g][0].u = slots[i][1]; sc->act[g][0].mask = 0;
+				sc->act[g][1].op = vf_chance(r, 3, 4) ? OP_REG : OP_ADD; sc->act[g][1].f = slots[i][0]; sc->act[g][1].u = slots[i][1]; sc->act[g][1].mask = m;
+			}
 		}
 	}
 	/* initial registrations */
